@@ -10,11 +10,15 @@
 // global variables, so the symbol table phase can't work out a symbol tbl
 // index for these variables.
 //
-// The closure region is pointers to cloned slices of the normal stack. When a
-// function returns a function we save the frame of the defining function in
-// the returned function value. When a function is called apart from pushing
-// the normal frame on the normal stack we need to push the closure frame from
-// the function value  on the closure stack.
+// The closure region is pointers to captured frames. A function value created
+// by a call holds a pointer to that call's captured frame header, which all
+// functions created by the same call share. While the call is active the
+// header is a slice of the normal stack (it is re-pointed when the stack is
+// reallocated), so the defining function and its closures share the variables;
+// when the call returns the header becomes a private copy of the frame. When a
+// function is called apart from pushing the normal frame on the normal stack
+// we need to push the captured frame from the function value on the closure
+// stack.
 //
 // Normal stack is an ever growing slice of values. The fp has a pair of
 // pointers into the stack per frame: fp and le the frame pointer and local
@@ -25,6 +29,7 @@ package memory
 
 import (
 	"fmt"
+	"slices"
 
 	"github.com/paulsonkoly/calc/types/dbginfo"
 	"github.com/paulsonkoly/calc/types/value"
@@ -42,17 +47,18 @@ type gframe map[string]value.Type
 
 // Memory holds all variables.
 type Type struct {
-	sp      int
-	fp      []int
-	global  gframe
-	closure []Frame
-	stack   []value.Type
+	sp       int
+	fp       []int
+	global   gframe
+	closure  []*Frame
+	captured []*Frame // per call frame, the header shared by the functions that call created; nil if none
+	stack    []value.Type
 }
 
 // New creates a new memory, with an empty global frame and an empty stack.
 func New() *Type {
 	fp := make([]int, 0, minStackSize)
-	return &Type{fp: fp, global: gframe{}, closure: []Frame{}, stack: []value.Type{}}
+	return &Type{fp: fp, global: gframe{}, closure: []*Frame{}, stack: []value.Type{}}
 }
 
 // Clone does a memory copy for context switching.
@@ -101,11 +107,12 @@ func (m *Type) Clone(reuse *Type) *Type {
 		reuse.fp = newFP
 		reuse.global = m.global
 		reuse.closure = m.closure[:len(m.closure):len(m.closure)]
+		reuse.captured = []*Frame{nil}
 		reuse.stack = newStack
 		return reuse
 	}
 
-	return &Type{sp: m.sp - fp, fp: newFP, global: m.global, closure: m.closure[:len(m.closure):len(m.closure)], stack: newStack}
+	return &Type{sp: m.sp - fp, fp: newFP, global: m.global, closure: m.closure[:len(m.closure):len(m.closure)], captured: []*Frame{nil}, stack: newStack}
 }
 
 // CallDepth is the number of call frames.
@@ -133,7 +140,7 @@ func (m *Type) LookUpLocal(symIdx int) value.Type {
 // LookUpClosure looks up a closure variable. A variable that was local in the
 // containing lexical scope.
 func (m *Type) LookUpClosure(symIdx int) value.Type {
-	return m.closure[len(m.closure)-1][symIdx]
+	return (*m.closure[len(m.closure)-1])[symIdx]
 }
 
 // LookUpGlobal looks up a global variable.
@@ -154,6 +161,7 @@ func (m *Type) PushFrame(argsCnt, localCnt int) {
 	}
 	m.sp += localCnt - argsCnt
 	m.fp = append(m.fp, m.sp-localCnt, m.sp)
+	m.captured = append(m.captured, nil)
 }
 
 // Push pushes a value.
@@ -164,12 +172,18 @@ func (m *Type) Push(v value.Type) {
 }
 
 // PushClosure pushes the closure frame.
-func (m *Type) PushClosure(f Frame) {
+func (m *Type) PushClosure(f *Frame) {
 	m.closure = append(m.closure, f)
 }
 
 // PopFrame pops a stack frame.
 func (m *Type) PopFrame() {
+	// functions created by this call keep the values their captured variables have now
+	if h := m.captured[len(m.captured)-1]; h != nil {
+		*h = slices.Clone(*h)
+	}
+	m.captured = m.captured[:len(m.captured)-1]
+
 	fp := m.fp[len(m.fp)+localFP]
 	m.sp = fp
 	m.fp = m.fp[:len(m.fp)-2]
@@ -196,6 +210,24 @@ func (m *Type) Top() Frame {
 	return m.stack[fp:le]
 }
 
+// noFrame is what functions created outside of any call capture.
+var noFrame = Frame{}
+
+// CaptureTop returns the captured frame header of the last stack frame
+// pushed, shared by all functions the current call creates.
+func (m *Type) CaptureTop() *Frame {
+	if len(m.fp) < 2 {
+		return &noFrame
+	}
+	h := m.captured[len(m.captured)-1]
+	if h == nil {
+		f := m.Top()
+		h = &f
+		m.captured[len(m.captured)-1] = h
+	}
+	return h
+}
+
 // IP returns the function return address.
 func (m *Type) IP() *value.Type {
 	if len(m.fp)+localFE < 0 {
@@ -213,6 +245,13 @@ func (m *Type) ResetSP() {
 func (m *Type) growStack(size int) {
 	if m.sp+size >= len(m.stack) {
 		m.stack = append(m.stack, make([]value.Type, max(minStackSize, size))...)
+
+		// the stack may have moved: captured frames of active calls follow it
+		for i, h := range m.captured {
+			if h != nil {
+				*h = m.stack[m.fp[2*i]:m.fp[2*i+1]]
+			}
+		}
 	}
 }
 
@@ -254,9 +293,21 @@ func (m *Type) DumpStack(dbg *dbginfo.Type) {
 	fmt.Println("=====================================================")
 }
 
+// Release is called before the memory of a finished context is recycled:
+// functions created by its calls keep a private copy of their captured frames.
+func (m *Type) Release() {
+	for _, h := range m.captured {
+		if h != nil {
+			*h = slices.Clone(*h)
+		}
+	}
+	m.captured = nil
+}
+
 // Reset drops all stack local allocations.
 func (m *Type) Reset() {
 	m.sp = 0
-	m.closure = []Frame{}
+	m.closure = []*Frame{}
+	m.captured = nil
 	m.fp = []int{}
 }
